@@ -1,4 +1,5 @@
 import RuxModel.Drv.Common
+import RuxModel.Go.Rt
 /- driver engine `gostr`: the `strings` functions of Go/Bytes.lean behind the line protocol, so that the
    harness can compare each of them with the real Go function on generated strings. Stateless. -/
 namespace Rux.Drv.GoStrE
@@ -38,6 +39,22 @@ def goStrStep (u : Unit) : List String → Unit × String
     match ofHex s with | some s => (u, toHex (toUpper s)) | none => (u, "bad-op")
   | ["quotedots", s] =>
     match ofHex s with | some s => (u, toHex (quoteDots s)) | none => (u, "bad-op")
+  -- the counterparts that the Go→Lean translator uses (Go/Rt.lean)
+  | ["index", s, p] =>
+    match ofHex s, ofHex p with | some s, some p => (u, toString (GoRt.index s p)) | _, _ => (u, "bad-op")
+  | ["contains", s, p] =>
+    match ofHex s, ofHex p with | some s, some p => (u, boolStr (GoRt.contains s p)) | _, _ => (u, "bad-op")
+  | ["splitn2", s, c] =>
+    match ofHex s, c.toNat? with
+    | some s, some c => (u, String.intercalate "," ((GoRt.splitN2 s c).map toHex))
+    | _, _ => (u, "bad-op")
+  | ["slice", s, lo, hi] =>
+    match ofHex s, lo.toInt?, hi.toInt? with
+    | some s, some lo, some hi =>
+      (u, match GoRt.slice s lo hi with | .ok r => toHex r | .error _ => "panic:index")
+    | _, _, _ => (u, "bad-op")
+  | ["wrap8", x] =>
+    match x.toInt? with | some x => (u, toString (GoRt.wrap8 x)) | none => (u, "bad-op")
   | _ => (u, "bad-op")
 
 def goStrEngine : Engine := { σ := Unit, init := (), step := goStrStep }
